@@ -39,11 +39,87 @@ theorem C09_S_adjust (src dst : Subdir) (mf : MFlags) (h : Proofs.MFlags.Valid m
     msgflags src dst mf = some (Spec.flagSuffix (Spec.adjustSeen (src == .new) (dst == .new) (Proofs.lettersOf mf))) :=
   Proofs.msgflags_eq_spec src dst mf h
 
+theorem flagsSet_valid (mf mf' : MFlags) (c : UInt8) (h : Proofs.MFlags.Valid mf) (hs : flagsSet mf c = some mf') :
+    Proofs.MFlags.Valid mf' := by
+  unfold flagsSet at hs
+  split at hs
+  · rename_i hu
+    cases hs
+    refine ⟨Nat.or_lt_two_pow h.1 ?_, h.2⟩
+    have : c.toNat - 65 < 26 := by
+      simp only [isupper, Bool.and_eq_true, decide_eq_true_eq] at hu
+      have := hu.2
+      have h2 : c.toNat ≤ 90 := by simpa using UInt8.le_iff_toNat_le.mp this
+      omega
+    rw [Nat.one_shiftLeft]
+    exact Nat.pow_lt_pow_right (by decide) this
+  · split at hs
+    · rename_i hl
+      cases hs
+      refine ⟨h.1, Nat.or_lt_two_pow h.2 ?_⟩
+      have : c.toNat - 97 < 26 := by
+        simp only [islower, Bool.and_eq_true, decide_eq_true_eq] at hl
+        have := hl.2
+        have h2 : c.toNat ≤ 122 := by simpa using UInt8.le_iff_toNat_le.mp this
+        omega
+      rw [Nat.one_shiftLeft]
+      exact Nat.pow_lt_pow_right (by decide) this
+    · cases hs
+
+theorem flagsSetAll_valid (fl : Bytes) (mf mf' : MFlags) (h : Proofs.MFlags.Valid mf) (hs : flagsSetAll mf fl = some mf') :
+    Proofs.MFlags.Valid mf' := by
+  induction fl generalizing mf with
+  | nil => simp [flagsSetAll] at hs; cases hs; exact h
+  | cons c r ih =>
+    unfold flagsSetAll at hs
+    split at hs
+    · cases hs
+    · rename_i mf1 h1
+      exact ih mf1 (flagsSet_valid mf mf1 c h h1) hs
+
+/-- (audit au2) The hypothesis `Valid` of the theorems above is discharged for every flag set the program can
+hold after parsing a name: `message_flags_parse` only sets bits of the 26 letters. -/
+theorem C09_flags_parse_valid (name : Bytes) (mf : MFlags) (h : flagsParse name = some mf) : Proofs.MFlags.Valid mf := by
+  unfold flagsParse at h
+  split at h
+  · cases h; exact ⟨by decide, by decide⟩
+  · split at h
+    · exact flagsSetAll_valid _ _ _ ⟨by decide, by decide⟩ h
+    · cases h
+
 /-! Non-vacuity: `1.host:2,FS` parses to {F, S}; {F, S, a} is written as `:2,FSa`. -/
 example : Model.flagsParse [49, 46, 104, 111, 115, 116, 58, 50, 44, 70, 83] = some ⟨2 ^ 5 + 2 ^ 18, 0⟩ := by
   decide
 
 example : Model.flagsStr ⟨2 ^ 5 + 2 ^ 18, 1⟩ 64 = some [58, 50, 44, 70, 83, 97] := by decide
+
+/-- (audit au2) The hypotheses of `C09_flags_str` / `_roundtrip` / `_S_adjust` / `_S_through` on {F, S, a}: the masks
+fit 26 bits (`Valid`: always true of what `flagsParse` returns, the parser only sets letter bits) and the base name
+`1.host` has no colon. -/
+example : Proofs.MFlags.Valid ⟨2 ^ 5 + 2 ^ 18, 1⟩ := ⟨by decide, by decide⟩
+
+/-- ... and what the specification side of those theorems evaluates to: `:2,FSa`; cur -> new `:2,Fa`; new -> cur
+of {F, a} `:2,FSa`. -/
+example : (58 : UInt8) ∉ ofString "1.host" ∧
+    Proofs.lettersOf ⟨2 ^ 5 + 2 ^ 18, 1⟩ = [70, 83, 97] ∧
+    Spec.flagSuffix [70, 83, 97] = ofString ":2,FSa" ∧
+    Spec.flagSuffix (Spec.adjustSeen false true [70, 83, 97]) = ofString ":2,Fa" ∧
+    Spec.flagSuffix (Spec.adjustSeen true false [70, 97]) = ofString ":2,FSa" := by
+  decide +kernel
+
+/-- `C09_flags_roundtrip` applied. -/
+example : flagsParse (ofString "1.host" ++ Spec.flagSuffix (Proofs.lettersOf ⟨2 ^ 5 + 2 ^ 18, 1⟩)) = some ⟨2 ^ 5 + 2 ^ 18, 1⟩ :=
+  C09_flags_roundtrip _ _ ⟨by decide, by decide⟩ (by decide +kernel)
+
+/-- What `Spec.nameFlags` accepts and rejects: only the text after the LAST colon counts (`a:2,S:2,FR` has F and R);
+duplicates and any order are accepted on input and come back sorted and once; a digit among the letters or a
+version other than `2,` is an error ("invalid flags": the message is not processed), no colon is "no flags". -/
+example : Spec.nameFlags (ofString "a:2,S:2,FR") = some [70, 82] ∧ Spec.nameFlags (ofString "1.h:2,SSF") = some [83, 83, 70] ∧
+    Spec.nameFlags (ofString "1.h") = some [] ∧ Spec.nameFlags (ofString "1.h:2,") = some [] ∧
+    Spec.nameFlags (ofString "1.h:2,S1") = none ∧ Spec.nameFlags (ofString "1.h:1,S") = none ∧
+    (Spec.nameFlags (ofString "1.h:2,SSF")).map (fun l => Spec.flagSuffix (Proofs.lettersOf (Proofs.ofLetters l))) =
+      some (ofString ":2,FS") := by
+  decide +kernel
 
 /-! ## World level: the modification time, fresh names, nothing is replaced
 
